@@ -16,6 +16,7 @@ import Nstd.Args.Model
          op = new | start <code> | open <mask> <code> | join | kill | close <mask> | running | read3 <mask>
     killtest <mask>                         → kill ok=1
     fds                                     → fds          (the harness adds the number of leaked descriptors)
+    execfail <path|empty|blank> <streams>   → xf ok=1 pipes=<p>   (an executable that cannot be started)
     env set <name> <value> | env get <name> <default> | env all
                                             → e ok=<0|1> | e val=<hex> | e all=<name=value hex,... in Map order>
          (the variables set through the API; the harness uses names starting with NVT_ and removes them at reset)
@@ -133,6 +134,22 @@ def stepLine' (pe : PEnv) (ws : List String) : String :=
       | some _ => "exit ok=1"
       | none => "bad-op"
     | ["fds"] => "fds"
+    | ["execfail", kind, streams] =>
+      -- the launch itself succeeds (vfork); what the failing execvpe leaves behind is the kernel's part
+      match streams.toNat? with
+      | none => "bad-op"
+      | some m =>
+        let r : Option (Option Exec) :=
+          if kind == "path" then
+            some (openArgv ("/nonexistent-nstd-verif/args-child".toList.map Char.toNat) 2
+              [some ("/nonexistent-nstd-verif/args-child".toList.map Char.toNat), some [97]] m [])
+          else if kind == "empty" then some (openCommand [] m [])
+          else if kind == "blank" then some (openCommand [32] m [])
+          else none
+        match r with
+        | none => "bad-op"
+        | some none => "FAULT"
+        | some (some e) => s!"xf ok=1 pipes={e.pipes}"
     | ["killtest", m] =>
       match m.toNat? with
       | some _ => "kill ok=1"
